@@ -3,7 +3,9 @@
 Model:    lean/DaskModel/Model/ArrayReduce.lean (K1: partition_all / partial_reduce / _tree_reduce, the
           per-block chunk/combine/aggregate functions, arg-reductions, top-k) and
           lean/DaskModel/Model/BlockScan.lean (K2: sequential cumreduction, Blelloch sweeps).
-Theorems: lean/DaskModel/Props/C22.lean (+ Lemmas/ArrayReduce.lean, Lemmas/BlockScan.lean)
+Theorems: lean/DaskModel/Props/C22.lean (+ Lemmas/ArrayReduce.lean, Lemmas/BlockScan.lean);
+          extension round: lean/DaskModel/Props/C22xNd.lean (+ Model/ArgNd.lean, Lemmas/GridReduceKd.lean, Lemmas/ArgNd.lean):
+          var/std over several axes at once, argmin/argmax(axis=None) on n-d arrays; sections `momentnd`, `argnd`
 Tie:      function level — (plan) the key structure of every partial_reduce layer of the real graph vs
           `treePlan`; (depth) dask's float depth formula satisfies the theorem hypothesis n ≤ k^depth;
           (blsched) the binop tasks of prefixscan_blelloch's graph vs `schedule`, and `schedOk`;
@@ -24,7 +26,8 @@ from props import _reduce_util as U
 PROP = "C22"
 READY = True
 DRIVER = "dm_reduce"
-LEAN_MODULES = ["DaskModel.Props.C22"]   # the kernel theorems of Lemmas/* are re-exported there (K1_*, K2_*)
+LEAN_MODULES = ["DaskModel.Props.C22",   # the kernel theorems of Lemmas/* are re-exported there (K1_*, K2_*)
+                "DaskModel.Props.C22xNd"]  # extension round: var / arg-reductions over several axes at once
 CASE_TIMEOUT_S = 20
 LEVEL_TEXT = (
     "Proved in Lean 4 (no size bound). K1 treeReduce_eq_fold — for every block list, every group size k (split_every) and "
@@ -40,13 +43,22 @@ LEVEL_TEXT = (
     "top-k (topk_eq_sort_take), var/std/moment(order 2) over exact rationals (var_eq_numpy: the k-way Chan–Pébay merge of "
     "moment_combine = NumPy's two-pass Σ(x-mean)²/(n-ddof), empty blocks included, undefined iff n ≤ ddof; nanvar_eq_numpy; "
     "var_chunking_irrelevant), nansum/nanprod/nanmin/nanmax/nanmean_eq_numpy (NaN entries dropped block by block). Several axes at once: gridReduce_eq_fold and sum/prod/any/all/mean/min/max_nd_eq_numpy (any "
-    "commutative monoid, every grid of blocks, per-axis split_every; min/max through gridReduce_mapGrid). K2: sequential "
+    "commutative monoid, every grid of blocks, per-axis split_every; min/max through gridReduce_mapGrid); var/std over several "
+    "axes at once (var_nd_eq_numpy, var_nd_dask_depth, nanvar_nd_eq_numpy: the order-2 moment partials over an n-d block grid, "
+    "both keepdims settings — the tree over the partials is the image under moment_chunk of the tree over the commutative monoid "
+    "of bags of numbers, gridReduce_eq_fold_kd being the keepdims=True twin of gridReduce_eq_fold); argmin/argmax with axis=None "
+    "on n-d arrays (argmin_nd_eq_numpy / argmax_nd_eq_numpy, *_dask_depth: for EVERY chunking of every axis, zero-length chunks "
+    "included, the per-block (value, raveled global index) partials computed as arg_chunk does — unravel in the block shape, add "
+    "the block offset, ravel_multi_index in the total shape — merged by arg_combine/arg_agg over the n-d tree give the value and "
+    "the FIRST C-order flat index of the extremum — argmin/argmax_nd_first_index: every earlier element of the ravel is strictly "
+    "worse, no later one is better, and the tree raises iff the array is empty; blocks_tile_array: the blocks enumerate every "
+    "element exactly once). K2: sequential "
     "cumreduction equals the global scan for every chunking including zero-length blocks (seqScan_eq_scan); Blelloch: the "
     "interval checker is sound (blelloch_sound) and dask's schedule is accepted for EVERY n_vals (blelloch_schedule_ok), hence "
     "cumsum/cumprod(method='blelloch') = NumPy for every chunking (cumsum_blelloch_eq_numpy, any monoid). VALIDATED, not "
-    "proved: float summation order (tolerance), moments of order ≥ 3, var/std over several axes at once, nanstd / nanarg* / "
+    "proved: float summation order (tolerance), moments of order ≥ 3, nanstd / nanarg* / "
     "nancumsum / nancumprod, argtopk (indices checked against the values), median/quantile/percentile glue (rechunk to one block + NumPy), "
-    "arg-reductions over several axes, dtype rules, and that a reduction leaves the blocks it reads untouched (section "
+    "the n-d theorems reduce ALL axes of the model grid (kept axes are pointwise: one instance per kept cell), dtype rules, and that a reduction leaves the blocks it reads untouched (section "
     "'shared': sequences / persisted / joint computes / x - f(x, keepdims=True) after median, quantile, percentile, topk …)."
 )
 LEVEL_NOTE = (
@@ -63,6 +75,7 @@ ASSUMPTIONS = [
     "depth computed by dask (math.ceil(math.log(n, k)), float) is treeDepth or treeDepth + 1 — checked on every generated case and on all boundary n ≤ 4096",
     "2 ** math.ceil(math.log2(n_vals // 2)) (float) equals the exact smallest power of two ≥ n_vals // 2 used by the model — the real schedule is diffed against the model for every n ≤ 40 (quick) / 300 (thorough)",
     "var/std theorems are over exact rationals; the float evaluation of the same formulas is compared within tolerance",
+    "n-d arg-reductions: the array is a function of the global multi-index; the block handed to arg_chunk holds the values at blockIdx in the block's own C order (diffed against the real blocks), offsets = zip(accumulate(add, bd[:-1], 0), bd) per axis (diffed against the offset_info of the real arg-reduce layer)",
 ]
 TRUSTED = ["NumPy per-block kernels and NumPy as oracle", "harness replica of split_every normalisation"]
 
@@ -963,8 +976,269 @@ def case_moment(ctx, inp):
         ctx.branch("several combine groups")
 
 
+# ---------------------------------------------------------------------------------------------
+# extension round: var / std over several axes at once, arg-reductions with axis=None on n-d arrays
+# ---------------------------------------------------------------------------------------------
+
+def tree_layer_names(arr):
+    """[(layer name, {output key coords: [input key coords in lol order]})] first round first, and the tree's input name."""
+    out = []
+    name = arr.name
+    hlg = arr.dask
+    if "-aggregate-" not in name:
+        cands = [n for n in hlg.layers if "-aggregate-" in n]
+        if len(cands) == 1:
+            name = cands[0]
+    while "-partial-" in name or "-aggregate-" in name:
+        layer = dict(hlg.layers[name])
+        rnd, src = {}, None
+        for key, task in layer.items():
+            ins = U.lol_flatten(task[1])
+            src = ins[0][0]
+            rnd[tuple(key[1:])] = [tuple(k[1:]) for k in ins]
+        out.append((name, rnd))
+        name = src
+    out.reverse()
+    return out, name
+
+
+def _graph_values(arr, name, keys):
+    import dask
+    ks = [(name,) + tuple(k) for k in keys]
+    with warnings.catch_warnings():
+        warnings.simplefilter("ignore")
+        vals = dask.get(arr.__dask_graph__(), ks)
+    return dict(zip([tuple(k) for k in keys], vals))
+
+
+def _mom_cell(p, c):
+    return [int(p["n"][c]), _rat(p["total"][c]), _rat(p["M"][c][0])]
+
+
+def case_momentnd(ctx, inp):
+    """var / std over SEVERAL axes: every intermediate of the real graph (moment_chunk per block, moment_combine per
+    group, moment_agg) against the Lean functions applied to the same real inputs, the whole n-d Lean tree (theorem
+    var_nd_eq_numpy, both keepdims) per kept cell against np.var and dask, and the API result against NumPy."""
+    da = _da()
+    a = dec_arr(inp["a"]).astype("f8")
+    chunks = tuple(tuple(c) for c in inp["chunks"])
+    op, axis, kd, se, ddof = inp["op"], inp["axis"], inp["keepdims"], dec_split(inp["split_every"]), inp["ddof"]
+    axes = norm_axes(axis, a.ndim)
+    ax_arg = None if axis is None else tuple(axes)
+    x = da.from_array(a, chunks=chunks)
+    res = getattr(da, op)(x, axis=ax_arg, ddof=ddof, keepdims=kd, split_every=se)
+    with warnings.catch_warnings():
+        warnings.simplefilter("ignore")
+        got = np.asarray(U.sync_compute(res))
+        ref = np.asarray(getattr(np, op)(a, axis=ax_arg, ddof=ddof, keepdims=kd))
+        refv = np.asarray(np.var(a, axis=ax_arg, ddof=ddof, keepdims=True))
+    n_red = int(np.prod([a.shape[i] for i in axes]))
+    scale = float(np.sum(np.abs(a)) ** 2) + 1.0
+    nb = [len(c) for c in chunks]
+    depth, split = check_plan(ctx, op + "-nd", res, nb, axes, kd, se)
+    if got.shape != ref.shape:
+        ctx.fail(f"{op} over axes {axes}: shape differs from NumPy", observed=list(got.shape), expected=list(ref.shape))
+        return
+    defined = n_red > ddof
+    if defined:
+        if not U.same_values(got, ref, False, scale=scale):
+            ctx.fail(f"{op} over axes {list(axes)} differs from NumPy", observed=got.tolist(), expected=ref.tolist())
+    else:
+        if got.size and np.isfinite(got).any():
+            ctx.fail(f"{op} with n - ddof <= 0 returned a finite value", observed=got.tolist())
+        ctx.branch("dof <= 0")
+    # ---- function level: every intermediate of the real graph
+    layers, src = tree_layer_names(res)
+    blocks = {idx: b for idx, _off, b in U.blocks_c_order(a, chunks)}
+    prev = _graph_values(res, src, list(blocks))
+    for idx, p in prev.items():                       # moment_chunk
+        b = blocks[idx]
+        for c in np.ndindex(p["n"].shape):
+            sl = tuple(slice(None) if i in axes else c[i] for i in range(a.ndim))
+            m = ctx.lean(Sym("momchunk"), [int(v) for v in b[sl].ravel()])
+            g = [int(p["n"][c]), float(p["total"][c]), float(p["M"][c][0])]
+            if m[0] != g[0] or not _close(_ratf(m[1]), g[1], scale) or (m[0] and not _close(_ratf(m[2]), g[2], scale)):
+                ctx.disagree("n-d moment_chunk (n, total, M2)", [m[0], _ratf(m[1]), _ratf(m[2])], g)
+    for li, (name, rnd) in enumerate(layers):
+        outs = _graph_values(res, name, list(rnd))
+        last = li == len(layers) - 1
+        for key, ins in rnd.items():
+            o = outs[key]
+            real_ins = [prev[k] for k in ins]
+            shp = real_ins[0]["n"].shape
+            if last:
+                o = np.asarray(o).reshape(shp)
+            for c in np.ndindex(shp):
+                cell_in = [_mom_cell(p, c) for p in real_ins]
+                if not last:
+                    m = ctx.lean(Sym("momcombine"), cell_in)
+                    g = [int(o["n"][c]), float(o["total"][c]), float(o["M"][c][0])]
+                    if not (np.isfinite(g[1]) and np.isfinite(g[2])):
+                        ctx.fail("n-d moment_combine of finite partials returned a non-finite total / M2", observed=g)
+                        return
+                    if m[0] != g[0] or not _close(_ratf(m[1]), g[1], scale) or (m[0] and not _close(_ratf(m[2]), g[2], scale)):
+                        ctx.disagree("n-d moment_combine (n, total, M2)", [m[0], _ratf(m[1]), _ratf(m[2])], g)
+                else:
+                    m = ctx.lean(Sym("momagg"), ddof, cell_in)
+                    v = float(o[c])
+                    if defined:
+                        if m is None or not _close(_ratf(m), v, scale):
+                            ctx.disagree("n-d moment_agg value", None if m is None else _ratf(m), v)
+                    elif m is not None:
+                        ctx.disagree("n-d moment_agg: degrees of freedom <= 0 must be undefined in the model", m, None)
+            if len(ins) > 1:
+                ctx.branch("group of several partials")
+        prev = outs
+    if len(layers) > 1:
+        ctx.branch("combine rounds")
+    # ---- the whole Lean tree (all reduced axes at once) on every kept cell
+    kept = [i for i in range(a.ndim) if i not in axes]
+    nb_r, sp_r = [nb[i] for i in axes], [split[i] for i in axes]
+    want_key = [0] * len(axes) if kd else []
+    cells = list(itertools.product(*[range(a.shape[i]) for i in kept]))
+    for cell in cells[:6]:
+        sl = [slice(None)] * a.ndim
+        for i, c in zip(kept, cell):
+            sl[i] = c
+        sub = a[tuple(sl)]
+        bl = [[int(v) for v in b.ravel()] for _, _, b in U.blocks_c_order(sub, [chunks[i] for i in axes])]
+        r = ctx.lean(Sym("vargrid"), ddof, nb_r, sp_r, bool(kd), depth, bl)
+        ck = tuple(_spread(cell, kept, a.ndim))
+        if r[0] != "ok" or len(r) != 2:
+            ctx.disagree("Lean n-d var tree: one result block expected", r, "ok")
+            continue
+        ctx.eq("Lean n-d var tree: output key", r[1][0], want_key)
+        mv = r[1][1]
+        if defined:
+            if mv is None or not _close(_ratf(mv), float(refv[ck]), scale):
+                ctx.disagree("Lean n-d var tree vs np.var", None if mv is None else _ratf(mv), float(refv[ck]))
+        elif mv is not None:
+            ctx.disagree("Lean n-d var tree: n <= ddof must be undefined", mv, None)
+    ctx.branch("lean-value")
+    if len(axes) > 1:
+        ctx.branch("multi-axis")
+    if len(axes) > 1 and kept:
+        ctx.branch("multi-axis with a kept axis")
+    if kd:
+        ctx.branch("keepdims")
+    if any(0 in chunks[i] for i in axes):
+        ctx.branch("zero-length chunk on a reduced axis")
+    if isinstance(se, dict):
+        ctx.branch("split_every=dict")
+
+
+def _spread(cell, kept, ndim):
+    out = [0] * ndim
+    for i, c in zip(kept, cell):
+        out[i] = c
+    return out
+
+
+def _arg_cands(p):
+    """a real partial of arg_chunk / arg_combine as the model's candidate list"""
+    p = np.asarray(p)
+    return [[int(v), int(i)] for v, i in zip(p["vals"].ravel().tolist(), p["arg"].ravel().tolist())]
+
+
+def case_argnd(ctx, inp):
+    """argmin / argmax with axis=None on an n-d array: the offsets arg_reduction hands to arg_chunk and every partial of
+    the real graph (arg_chunk per block, arg_combine per group, arg_agg) against the model, the whole Lean tree
+    (argmin_nd_eq_numpy) and its specification (first flat index of the extremum) against dask and NumPy."""
+    da = _da()
+    a = dec_arr(inp["a"])
+    chunks = tuple(tuple(c) for c in inp["chunks"])
+    op, kd, se = inp["op"], inp["keepdims"], dec_split(inp["split_every"])
+    which = Sym("min" if op == "argmin" else "max")
+    x = da.from_array(a, chunks=chunks)
+    res = getattr(da, op)(x, axis=None, keepdims=kd, split_every=se)
+    axes = tuple(range(a.ndim))
+    nb = [len(c) for c in chunks]
+    got, exp = U.run_both(lambda: U.sync_compute(res), lambda: getattr(np, op)(a, axis=None, keepdims=kd))
+    flat = [int(v) for v in a.ravel()]
+    if exp[0] == "raised":
+        if got[0] != "raised":
+            ctx.fail(f"{op}: NumPy raises {exp[1]} but dask returned {got[1]!r}", observed=str(got[1]))
+        ctx.branch("numpy-raises")
+    elif got[0] == "raised":
+        ctx.fail(f"{op}(axis=None): dask raised but NumPy returns a value: {got[1]}", observed=got[1], expected=np.asarray(exp[1]).tolist())
+        return
+    else:
+        # the statement itself, in plain Python: the FIRST flat index attaining the extremum
+        best = min(flat) if op == "argmin" else max(flat)
+        first = flat.index(best)
+        g = np.asarray(got[1])
+        if g.shape != np.asarray(exp[1]).shape or int(g.ravel()[0]) != first:
+            ctx.fail(f"{op}(axis=None) on a {a.ndim}-d array is not the first flat index of the extremum",
+                     observed=g.tolist(), expected=first)
+        if int(np.asarray(exp[1]).ravel()[0]) != first:
+            ctx.fail("NumPy disagrees with the plain-Python first index", observed=np.asarray(exp[1]).tolist(), expected=first)
+    depth, split = check_plan(ctx, op + "-nd", res, nb, axes, kd, se)
+    # ---- function level: offsets and per-block partials
+    layers, src = tree_layer_names(res)
+    model_parts = ctx.lean(Sym("argpartsnd"), which, [list(c) for c in chunks], flat)
+    real_blocks = U.blocks_c_order(a, chunks)
+    src_layer = dict(res.dask.layers[src])
+    keys = [idx for idx, _, _ in real_blocks]
+    prev = _graph_values(res, src, keys)
+    if len(model_parts) != len(real_blocks):
+        ctx.disagree("number of blocks", len(model_parts), len(real_blocks))
+        return
+    for (idx, off, b), mp in zip(real_blocks, model_parts):
+        task = src_layer[(src,) + idx]
+        info = task[3]
+        ctx.eq("arg_reduction: offset handed to arg_chunk", mp[0], [int(v) for v in info[0]])
+        if tuple(info[1]) != a.shape or tuple(task[2]) != axes:
+            ctx.fail("arg_reduction(axis=None): total shape / axes handed to arg_chunk", observed=[list(info[1]), list(task[2])])
+        ctx.eq("block shape", mp[1], list(b.shape))
+        ctx.eq("block data (C order of the block)", mp[2], [int(v) for v in b.ravel()])
+        ctx.eq("arg_chunk partial (value, raveled global index)", mp[3], _arg_cands(prev[idx]))
+        if b.size == 0:
+            ctx.branch("empty block: no candidate")
+    for li, (name, rnd) in enumerate(layers):
+        outs = _graph_values(res, name, list(rnd)) if exp[0] != "raised" or li < len(layers) - 1 else {}
+        last = li == len(layers) - 1
+        for key, ins in rnd.items():
+            real_ins = [_arg_cands(prev[k]) for k in ins]
+            if not last:
+                ctx.eq("arg_combine of a group of partials", ctx.lean(Sym("argcomb"), which, real_ins), _arg_cands(outs[key]))
+                vals = [c[0] for p in real_ins for c in p]
+                if len(vals) != len(set(vals)):
+                    ctx.branch("tie inside a combine group")
+            else:
+                m = ctx.lean(Sym("argagg"), which, real_ins)
+                if exp[0] == "raised":
+                    ctx.eq("arg_agg on no candidate", m, [Sym("raised")])
+                else:
+                    ctx.eq("arg_agg", m[2] if m[0] == "ok" else m, int(np.asarray(outs[key]).ravel()[0]))
+        if not last:
+            prev = outs
+    if len(layers) > 1:
+        ctx.branch("combine rounds")
+    # ---- the whole tree and its specification
+    tree, spec = ctx.lean(Sym("argtreend"), which, [list(c) for c in chunks], [split[i] for i in range(a.ndim)], bool(kd), depth, flat)
+    want_key = [0] * a.ndim if kd else []
+    if exp[0] == "raised":
+        ctx.eq("Lean n-d arg tree on an empty array", [tree, spec], [[Sym("raised"), want_key], [Sym("raised")]])
+    else:
+        first = int(np.asarray(exp[1]).ravel()[0])
+        ctx.eq("Lean n-d arg tree (key, value, first flat index)", tree, [Sym("ok"), want_key, flat[first], first])
+        ctx.eq("Lean specification argBest of the raveled data", spec, [Sym("ok"), flat[first], first])
+    ctx.branch("lean-value")
+    if len(set(flat)) < len(flat):
+        ctx.branch("ties")
+    if a.ndim > 1:
+        ctx.branch("ravel n-d")
+    if a.ndim > 2:
+        ctx.branch("ravel 3-d")
+    if any(0 in c for c in chunks):
+        ctx.branch("zero-length chunk")
+    if kd:
+        ctx.branch("keepdims")
+
+
 CASES = {"joint": case_joint, "moment": case_moment, "shared": case_shared, "plan": case_plan, "depth": case_depth, "blsched": case_blsched, "reduce": case_reduce,
-         "arg": case_arg, "cum": case_cum, "topk": case_topk, "quant": case_quant}
+         "arg": case_arg, "cum": case_cum, "topk": case_topk, "quant": case_quant,
+         "momentnd": case_momentnd, "argnd": case_argnd}
 CASES = {k: U.pure_sources(v) for k, v in CASES.items()}
 
 
@@ -1217,6 +1491,46 @@ def gen_moment(ctx, n):
         yield "moment", {"blocks": blocks, "ddof": rng.choice([0, 0, 1, 2]), "k": rng.choice([2, 2, 3, 4])}
 
 
+def _nd_shape_chunks(rng, zero_p):
+    nd = rng.choice([2, 2, 2, 3, 3, 1])
+    shape = tuple(rng.randint(1, 4 if nd == 3 else 5) for _ in range(nd))
+    chunks = U.rand_chunks(rng, shape, zero_p=zero_p)
+    if rng.random() < 0.15:
+        # many blocks on one axis: several combine rounds
+        ax = rng.randrange(nd)
+        n = rng.randint(5, 9)
+        shape = tuple(n if i == ax else s for i, s in enumerate(shape))
+        chunks = tuple((1,) * n if i == ax else U.rand_chunks_1d(rng, s, zero_p) for i, s in enumerate(shape))
+    elif rng.random() < 0.05:
+        # an axis of length zero: nothing to reduce (NumPy raises for arg-reductions, var is undefined)
+        ax = rng.randrange(nd)
+        shape = tuple(0 if i == ax else s for i, s in enumerate(shape))
+        chunks = tuple(rng.choice([(0,), (0, 0)]) if i == ax else c for i, c in enumerate(chunks))
+    return shape, chunks
+
+
+def gen_momentnd(ctx, n):
+    rng = ctx.rng
+    for _ in range(n):
+        shape, chunks = _nd_shape_chunks(rng, 0.15)
+        nd = len(shape)
+        multi = [list(c) for r in range(2, nd + 1) for c in itertools.combinations(range(nd), r)]
+        axis = rng.choice(multi + [None, None]) if nd > 1 and rng.random() < 0.85 else rng.choice([None] + list(range(nd)))
+        a = U.rand_int_array(rng, shape, -6, 6)
+        yield "momentnd", {"a": enc_arr(a), "chunks": [list(c) for c in chunks], "op": rng.choice(["var", "var", "std"]),
+                           "axis": axis, "keepdims": rng.random() < 0.5, "ddof": rng.choice([0, 0, 1, 2]),
+                           "split_every": _split_choice(rng, norm_axes(axis, nd))}
+
+
+def gen_argnd(ctx, n):
+    rng = ctx.rng
+    for _ in range(n):
+        shape, chunks = _nd_shape_chunks(rng, 0.2)
+        a = U.rand_int_array(rng, shape, 0, rng.choice([1, 2, 2, 9]))
+        yield "argnd", {"a": enc_arr(a), "chunks": [list(c) for c in chunks], "op": rng.choice(["argmin", "argmax"]),
+                        "keepdims": rng.random() < 0.35, "split_every": _split_choice(rng, tuple(range(len(shape))))}
+
+
 def gen_shared(ctx, n):
     """targets that sort / partition (median, quantile, percentile, topk, argtopk) and ordinary ones × the scenarios in
     which a block is read more than once; the reduced axis lies in ONE chunk in most cases and keepdims is mostly on
@@ -1229,7 +1543,9 @@ def gen_shared(ctx, n):
             shape = (rng.randint(9, 30),) + shape[1:]
         kind = rng.choice(["float", "float", "nan", "int"])
         if kind == "int":
-            a = np.array(rng.sample(range(-600, 600), int(np.prod(shape))), dtype=np.int64).reshape(shape)
+            size = int(np.prod(shape))
+            pop = range(-600, 600) if size <= 1200 else range(-size, size)   # distinct values; (30, 7, 7) has 1470 elements
+            a = np.array(rng.sample(pop, size), dtype=np.int64).reshape(shape)
         else:
             a = U.rand_float_array(rng, shape, nan_p=0.08 if kind == "nan" else 0.0, dup=False)
         axis = rng.randrange(nd)
@@ -1322,6 +1638,9 @@ def generate(ctx):
     yield from gen_quant(ctx, ctx.n(40, 600))
     yield from gen_joint(ctx, ctx.n(60, 600))
     yield from gen_shared(ctx, ctx.n(60, 800))
+    # extension round (kept last: the random streams of the sections above are those of the earlier rounds)
+    yield from gen_momentnd(ctx, ctx.n(110, 1300))
+    yield from gen_argnd(ctx, ctx.n(140, 1600))
 
 
 def search(ctx):
@@ -1332,3 +1651,5 @@ def search(ctx):
     yield from gen_topk(ctx, ctx.n(100))
     yield from gen_plan(ctx, ctx.n(100))
     yield from gen_shared(ctx, ctx.n(100))
+    yield from gen_momentnd(ctx, ctx.n(60))
+    yield from gen_argnd(ctx, ctx.n(60))
